@@ -89,7 +89,8 @@ func harnessC07Step(nMembers, op int) {
 			verifAssert(!att, "no-join-grant-no-attachment")
 		}
 	}
-	verifAssert(t.subsCount() <= globals.maxSubscriberCount || t.subsCount() <= len(w.before), "subscriber-limit-holds")
+	// counted independently of Topic.subsCount: every entry of the member table takes a slot, blocked ones too
+	verifAssert(len(t.perUser) <= globals.maxSubscriberCount || len(t.perUser) <= len(w.before), "subscriber-limit-holds")
 	_ = opDone
 	_ = target
 	verifReach("end")
@@ -118,6 +119,11 @@ func Harness_C07_other_with_delete_bit() {
 func Harness_C07_member_regrades_member() {
 	verifForceActor, verifForceTarget = 1, 2
 	harnessC07Step(3, verifOpSetOther)
+}
+// A group that is full (limit = current membership, some members possibly blocked) admits nobody.
+func Harness_C07_full_group_admits_nobody() {
+	verifSubLimit = 2
+	harnessC07Step(2, verifChoose("op", 2)*verifOpSetOther) // {sub} or {set sub user=...}
 }
 func Harness_C07_step_3_sub()      { harnessC07Step(3, verifOpSub) }
 func Harness_C07_step_3_setself()  { harnessC07Step(3, verifOpSetSelf) }
